@@ -6,7 +6,7 @@ from flowmark.linewrapping.tag_handling import TEMPLATE_TAG_PATTERN
 # Note `^` is the start of the text only (no re.MULTILINE): whether a `...` happens to follow a
 # soft line break in the source must not influence the result, or reformatting would not be stable.
 ELLIPSIS_PATTERN: Pattern[str] = re.compile(
-    r"(^|[\w\"\'“‘])(\s*)(\.\.\.)([.,:;?!)\-—\"\'”’]?)(\s*)",
+    r"(^|[\w\"\'“‘”’])(\s*)(\.\.\.)([.,:;?!)\-—\"\'”’]?)(\s*)",
 )
 
 
@@ -19,7 +19,7 @@ def ellipses(text: str) -> str:
     - `...` must be followed by word character (with optional space) OR punctuation OR end of line
     - If immediately before the `...` is a word character (no whitespace), a space is inserted before it.
     - If immediately after the `...` is a word character (no whitespace), a space is inserted after it.
-    - If the punctuation [\"\'“‘] immediately precedes the ellipsis, there is no space between the
+    - If the punctuation [\"\'“‘”’] immediately precedes the ellipsis, there is no space between the
       punctuation and the ellipsis.
     - If punctuation [.,:;?!)\-—] follows the ellipsis, there is no space between the ellipsis and
       the punctuation.
